@@ -9,7 +9,11 @@
 typedef struct fiber_barrier {
   uint32_t count;
   _Atomic uint64_t counter;
-  mpsc_fifo_t waiters;
+  // waiters of even and odd rounds are kept apart: a fiber released from round
+  // k may re-enter round k+1 and enqueue itself before a round-k participant
+  // that has arrived has enqueued; with a single queue the last arriver of
+  // round k would then release the round k+1 entry instead
+  mpsc_fifo_t waiters[2];
 } fiber_barrier_t;
 
 #define FIBER_BARRIER_SERIAL_FIBER (1)
